@@ -63,6 +63,17 @@ pub mod verif_hooks {
         sync_point_at(name, 0);
     }
 
+    /// Calls the named synchronisation point when dropped (marks the end of a thread body; verification hook H3).
+    pub struct ExitPoint(pub &'static str);
+    impl Drop for ExitPoint {
+        fn drop(&mut self) {
+            sync_point(self.0);
+        }
+    }
+
+    /// peer.rs carries the H3 synchronisation points (receive loop, send, disconnect).
+    pub const PEER_HOOKS: bool = true;
+
     /// Which publication algorithm rx.rs implements (read by the harness to pick the model instance).
     pub const RX_ALGO: &str = "snapshot";
 }
